@@ -73,3 +73,12 @@ Proof. exact LN_std_from_moments. Qed.
 Theorem C06_truncated_mean : forall mu sg, 0 < sg -> Phi (- mu / sg) < 1 ->
   is_lim (fun b => RInt (fun y => y * exp (TG_lp mu sg y)) 0 b) p_infty (TG_mean mu sg).
 Proof. exact TG_mean_is_first_moment. Qed.
+Theorem C06_truncated_second_moment : forall mu sg, 0 < sg -> Phi (- mu / sg) < 1 ->
+  is_lim (fun b => RInt (fun y => y^2 * exp (TG_lp mu sg y)) 0 b) p_infty
+         (mu^2 + sg^2 + sg * mu * (phi (mu / sg) / (1 - Phi (- mu / sg)))).
+Proof. exact TG_second_moment. Qed.
+Theorem C06_truncated_std : forall mu sg, 0 < sg -> Phi (- mu / sg) < 1 ->
+  let F := phi (mu / sg) / (1 - Phi (- mu / sg)) in
+  0 <= 1 - mu / sg * F - F^2 ->
+  (TG_std mu sg)^2 = (mu^2 + sg^2 + sg * mu * F) - (TG_mean mu sg)^2.
+Proof. exact TG_std_from_moments. Qed.
